@@ -938,6 +938,7 @@ theorem stepV1_shape (p : Params) (count lr : Nat) (acc : List Nat) (h : Hdr) (b
   unfold stepV1
   simp only
   split
+  · simp [StepShape]
   · split
     · simp [StepShape]
     · split
